@@ -33,7 +33,16 @@ pub fn run(_sh: &mut Shell, cl: &CommandLine, cmd: &Command, capture: bool) -> C
         return cr;
     }
 
-    let app = App::parse_from(args);
+    // parse_from() would terminate the whole shell on a usage error
+    let app = match App::try_parse_from(args) {
+        Ok(x) => x,
+        Err(e) => {
+            let info = format!("{}", e);
+            print_stderr_with_capture(&info, &mut cr, cl, cmd, capture);
+            cr.status = 1;
+            return cr;
+        }
+    };
 
     if app.H && app.S {
         println!("cicada: ulimit: Cannot both hard and soft.");
